@@ -129,8 +129,13 @@ GP_STEPS = {
 }
 
 
+_SHARED_BUDGETS = {}
+
+
 def algorithm_run(R, alg, hist, mode, mini, multi, budget_kind, n, repkind, gp_step="default", pop=4, k=3,
-                  target=None):
+                  target=None, share=None):
+    """share: a key; searches run with the same key are given ONE AND THE SAME budget object (a loop over seeds with one
+    budget, CooperativeGP handing one budget to every GP it creates)"""
     events = []
     ids = Ids()
     rs = NativeRandomSource(R.randint(0, 10 ** 6))
@@ -152,6 +157,8 @@ def algorithm_run(R, alg, hist, mode, mini, multi, budget_kind, n, repkind, gp_s
         inner = AnyOf(TargetMultiSameFitness(float(target[0])), EvaluationBudget(n))
     else:
         inner = AnyOf(TargetFitness(target), EvaluationBudget(n))
+    if share is not None:
+        inner = _SHARED_BUDGETS.setdefault(share, inner)
     if budget_kind in ("mtarget", "msame"):
         budget = RecordingBudget(inner, events, ffcount=lambda: ff.k, mtargets=[float(t) for t in target])
     else:
@@ -447,6 +454,17 @@ def main():
                                     gp_step="default", pop=3, k=2, target=val + off)
             batch.trace(f"run/fractarget/{i}/{alg}", ev, cfg)
             stats["events"] += len(ev)
+
+    # ONE budget object serving two searches in a row: the first is ended by one member of the disjunction, the second by the other
+    for i, alg in enumerate(("RS", "GP", "HC", "OPO")):
+        for order in (0, 1):
+            key = f"shared/{i}/{order}"
+            far = [[x] for x in (5, 1, 9, 3, 11, 7, 2, 12, 4, 10, 6, 8)]         # never reaches the target 500
+            hit = [[x] for x in (500, 1, 9, 500, 3, 500, 2, 500, 4, 500, 6, 500)]  # reaches it at once
+            for j, h in enumerate((far, hit) if order == 0 else (hit, far)):
+                ev, cfg = algorithm_run(R, alg, h, "scripted", [False], False, "anyof", 7, "tree", pop=3, k=2, target=500, share=key)
+                batch.trace(f"run/shared/{alg}/{order}/{j}", ev, cfg)
+                stats["events"] += len(ev)
 
     # the repository's simple API; target 0 is the natural "stop when solved" configuration
     for i in range(8 if quick else 48):
